@@ -23,6 +23,7 @@ import IgrisModel.C19.Lemmas
 import IgrisModel.C19.Lemmas2
 import IgrisModel.C19.LemmasPtr
 import IgrisModel.C19.Lemmas3
+import IgrisModel.C19.Lemmas4
 namespace Igris.C19
 open Igris.Proto
 
@@ -1117,5 +1118,102 @@ theorem argvSplitP_refines (text junk : Str) (argcmax : Nat) (hn : NUL ∉ text)
   simp
 
 example : NUL ∉ ([0x61#8, SP, 0x62#8] : Str) := by decide
+
+
+/-! # Extension round 3 -/
+
+/-! ## the iterator-range `join` beyond 2³² elements (32-bit counter) -/
+
+/-- `for (unsigned int i = 0; i < tot - 1; ++i)`: for a range of MORE than 2³² elements the
+counter wraps before it reaches `tot - 1`, the loop never ends by its test and `*it` is read
+behind the last element (index `size`). -/
+theorem joinFmtP_overrun (vec : List Str) (delim pre post : Str) (h : 2 ^ 32 < vec.length) :
+    joinFmtP vec delim pre post = .oob vec.length := joinFmtP_overrun' vec delim pre post h
+
+example (n : Nat) (h : 2 ^ 32 < n) : 2 ^ 32 < (List.replicate n ([] : Str)).length := by
+  rw [List.length_replicate]; exact h
+
+/-- the excluded region of `joinFmtP_safe`, exactly: the routine is correct (and in bounds)
+iff the range has at most 2³² elements -/
+theorem joinFmtP_safe_iff (vec : List Str) (delim pre post : Str) :
+    joinFmtP vec delim pre post = .ok (pre ++ List.intercalate delim vec ++ post) ↔ vec.length ≤ 2 ^ 32 := by
+  constructor
+  · intro h
+    by_cases hl : vec.length ≤ 2 ^ 32
+    · exact hl
+    · rw [joinFmtP_overrun vec delim pre post (by omega)] at h
+      cases h
+  · exact joinFmtP_safe vec delim pre post
+
+/-! ## `replace_substrings` in place (`buffer == input`) -/
+
+/-- replacement SHORTER than the pattern: the output cursor falls behind the input cursor and
+the copy of the next piece overlaps its source — `memcpy` with overlapping ranges, undefined
+(`"aabb"`, `"aa"` → `"."` in a 5-byte block: `memcpy(buf+1, buf+2, 2)`) -/
+theorem rsInPlace_shorter_witness :
+    replaceSubstringsInPlace [0x61#8, 0x61#8, 0x62#8, 0x62#8, 0x5a#8] 4 [0x61#8, 0x61#8] [0x2e#8] = .oob (-1) := by decide
+
+/-- replacement LONGER than the pattern: the output overtakes the input and overwrites bytes
+that have not been read yet (`"aa"`, `"a"` → `"bb"`: the block becomes `"bbb\0"`, the
+substitution is `"bbbb"`) -/
+theorem rsInPlace_longer_witness :
+    replaceSubstringsInPlace [0x61#8, 0x61#8, 0x5a#8, 0x5a#8, 0x5a#8] 2 [0x61#8] [0x62#8, 0x62#8]
+        = .ok [0x62#8, 0x62#8, 0x62#8, 0x00#8, 0x5a#8]
+      ∧ subst [0x61#8] [0x62#8, 0x62#8] [0x61#8, 0x61#8] = [0x62#8, 0x62#8, 0x62#8, 0x62#8] := by decide
+
+/-- replacement as long as the pattern: every `memcpy` has `dst == src`, the block receives the
+substitution, the terminator, and keeps the rest (instance; the general statement is open) -/
+theorem rsInPlace_samelen_example :
+    replaceSubstringsInPlace [0x61#8, 0x2e#8, 0x61#8, 0x5a#8, 0x59#8] 3 [0x61#8] [0x62#8]
+      = .ok [0x62#8, 0x2e#8, 0x62#8, 0x00#8, 0x59#8] := by decide
+
+/-! ## the linear-time evaluation the driver uses for long inputs = the models -/
+
+theorem memmemF_eq (l s : Str) : memmemF l s = memmem l s := memmemF_eq' l s
+
+theorem replaceF_eq (input sub rep : Str) : replaceF input sub rep = replace input sub rep := by
+  unfold replaceF replace
+  rw [replaceLoopF_eq]
+
+theorem replaceSubstringsF_eq (maxsize : Nat) (input sub rep : Str) :
+    replaceSubstringsF maxsize input sub rep = replaceSubstrings maxsize input sub rep := by
+  have h : rsLoopF = rsLoop := by
+    funext a b c d e; exact rsLoopF_eq a b c d e
+  simp only [replaceSubstringsF, replaceSubstrings, h]
+  split
+  · rfl
+  · split
+    · rfl
+    · cases rsLoop sub rep (input.length + 1) input ([], maxsize - 1) <;> rfl
+
+/-! ## a membership table for `strchr` (the harmless form of the seeded change) -/
+
+/-- looking a byte up in the table is `strchr(delims, c) != NULL` — for every delimiter string
+and byte; so a table built from the contents at every call (or cached under the contents)
+changes nothing, whereas a table cached under the ADDRESS of `delims` is only right as long as
+the contents behind that address do not change (seeded change
+`C19-split-delims-table-by-address`, caught by the fixed-address cases `re`) -/
+theorem delimTable_lookup (d : Str) (c : Byte) : (delimTable d)[c.toNat]? = some (strchrHit d c) := by
+  have hc : c.toNat < 256 := c.isLt
+  unfold delimTable strchrHit
+  rw [List.getElem?_map, List.getElem?_range hc]
+  simp only [Option.map_some]
+  congr 1
+  have key : ∀ x : Byte, (x.toNat == c.toNat) = (x == c) := by
+    intro x
+    by_cases h : x = c
+    · subst h; simp
+    · have hn : x.toNat ≠ c.toNat := fun e => h (BitVec.eq_of_toNat_eq e)
+      rw [beq_eq_false_iff_ne.mpr hn, beq_eq_false_iff_ne.mpr h]
+  have h0 : (c.toNat == 0) = (c == NUL) := by
+    have := key NUL
+    rw [show (NUL : Byte).toNat = 0 from rfl] at this
+    rw [Bool.beq_comm, this, Bool.beq_comm]
+  have h1 : d.any (fun x => x.toNat == c.toNat) = d.contains c := by
+    induction d with
+    | nil => rfl
+    | cons x xs ih =>
+      rw [List.any_cons, List.contains_cons, ih, key x, Bool.beq_comm]
+  rw [h0, h1]
 
 end Igris.C19
